@@ -24,14 +24,56 @@ theorem init_n_pos {c : Nat} {s : S} (h : Reachable c s) : 0 < s.n := by
     | newChild => exact Nat.succ_pos _
     | _ => exact ih
 
-/-! ### the lock is never held across a step (repaired `Close`) -/
+/-! ### the lock: who holds it is determined by where the goroutines are (mutual exclusion) -/
 
-def LockFree (s : S) : Prop := s.lockHeld = false
+/-- the ticker goroutine holds the lock exactly between its `Lock()` and `Unlock()`, the goroutine in root `Close`
+    exactly between its `Lock()` and its `Unlock()` — in particular NOT while it is blocked on `done` -/
+def LockInv (s : S) : Prop :=
+  (s.holder = .ticker ↔ (s.tpc = .tcrit ∨ s.tpc = .tunl ∨ s.tpc = .dcrit ∨ s.tpc = .dunl)) ∧
+  (s.holder = .closer ↔ (s.cpc = .crit ∨ s.cpc = .marked)) ∧ s.cpc ≠ .unl
 
-theorem lockFree {c : Nat} {s : S} (h : Reachable c s) : LockFree s := by
+theorem lockInv {c : Nat} {s : S} (h : Reachable c s) : LockInv s := by
   induction h with
-  | init => rfl
-  | step s s' _ st ih => cases st <;> exact ih
+  | init => simp [LockInv, init]
+  | step s s' _ st ih =>
+    obtain ⟨h1, h2, h3⟩ := ih
+    cases st with
+    | useNeg => exact ⟨h1, h2, h3⟩
+    | apiLock h =>
+      refine ⟨?_, ?_, h3⟩
+      · simpa [lockApi] using (by rw [h] at h1; simpa using h1 : ¬ (s.tpc = .tcrit ∨ s.tpc = .tunl ∨ s.tpc = .dcrit ∨ s.tpc = .dunl))
+      · simpa [lockApi] using (by rw [h] at h2; simpa using h2 : ¬ (s.cpc = .crit ∨ s.cpc = .marked))
+    | apiRead h => rw [h] at h1 h2; simpa [LockInv, unlock] using And.intro h1 (And.intro h2 h3)
+    | useClosed l hl h0 h => rw [h0] at h1 h2; simpa [LockInv, unlock, answer] using And.intro h1 (And.intro h2 h3)
+    | useZero l hl h0 h => rw [h0] at h1 h2; simpa [LockInv, unlock, doUseZero] using And.intro h1 (And.intro h2 h3)
+    | useTooBig l amt hl h0 h => rw [h0] at h1 h2; simpa [LockInv, unlock, answer] using And.intro h1 (And.intro h2 h3)
+    | useGrant l amt hl ha h0 => rw [h0] at h1 h2; simpa [LockInv, unlock, doUseGrant] using And.intro h1 (And.intro h2 h3)
+    | useWait l amt hl ha h0 => rw [h0] at h1 h2; simpa [LockInv, unlock, doUseWait] using And.intro h1 (And.intro h2 h3)
+    | newChild p cp hp h0 => rw [h0] at h1 h2; simpa [LockInv, unlock, doNewChild] using And.intro h1 (And.intro h2 h3)
+    | closeChild l hl hr h0 => rw [h0] at h1 h2; simpa [LockInv, unlock, doCloseChild] using And.intro h1 (And.intro h2 h3)
+    | setCap l cp hl h0 => rw [h0] at h1 h2; simpa [LockInv, unlock, doSetCap] using And.intro h1 (And.intro h2 h3)
+    | closeLock h0 hc => simp_all [LockInv, doCloseLock]
+    | closeRoot h0 hc hp => simp_all [LockInv, doCloseRootMark]
+    | closeSkip hc hp =>
+      have hh : s.holder = .closer := h2.mpr (Or.inl hp)
+      rw [hh] at h1; simp [LockInv, doCloseSkip]; simpa using h1
+    | closeUnlock hp =>
+      have hh : s.holder = .closer := h2.mpr (Or.inr hp)
+      rw [hh] at h1; simp [LockInv, doCloseUnlock]; simpa using h1
+    | tickFires ht => rw [ht] at h1; simp at h1; simp [LockInv, doTickFires, h1, h2, h3]
+    | tickLock ht h0 => simp_all [LockInv, doTickLock]
+    | tickRuns ht h0 => simp_all [LockInv, doTickRuns]
+    | tickUnlock ht =>
+      have hh : s.holder = .ticker := h1.mpr (Or.inr (Or.inl ht))
+      rw [hh] at h2; simp [LockInv, doTickUnlock]; exact ⟨by simpa using h2, h3⟩
+    | doneReceived ht hc =>
+      rw [ht] at h1; rw [hc] at h2; simp at h1 h2
+      simp [LockInv, doDoneReceived, h1, h2]
+    | drainLock ht h0 => simp_all [LockInv, doDrainLock]
+    | drain ht h0 => simp_all [LockInv, doDrain]
+    | drainUnlock ht =>
+      have hh : s.holder = .ticker := h1.mpr (Or.inr (Or.inr (Or.inr ht)))
+      rw [hh] at h2; simp [LockInv, doDrainUnlock]; exact ⟨by simpa using h2, h3⟩
 
 /-! ### capacity invariant on `used` -/
 
@@ -127,40 +169,42 @@ theorem exactlyOnce_answer (s : S) (a : Ans) (h : ExactlyOnce s) : ExactlyOnce (
   simp only [answer, List.count_append, List.map_cons, List.count_cons]
   rw [← fresh_count]; omega
 
+theorem exactlyOnce_useZero (s : S) (l : Nat) (h : ExactlyOnce s) : ExactlyOnce (doUseZero s l) := by
+  intro id
+  have hid := h id
+  unfold ids at hid ⊢
+  simp only [List.count_append] at hid
+  show _ = if id < s.nextReq + 1 then 1 else 0
+  simp only [doUseZero, List.count_append, List.map_cons, List.count_cons]
+  rw [← fresh_count]; omega
+
+theorem exactlyOnce_useGrant (s : S) (l amt : Nat) (h : ExactlyOnce s) : ExactlyOnce (doUseGrant s l amt) := by
+  intro id
+  have hid := h id
+  unfold ids at hid ⊢
+  simp only [List.count_append] at hid
+  show _ = if id < s.nextReq + 1 then 1 else 0
+  simp only [doUseGrant, List.count_append, List.map_cons, List.count_cons]
+  rw [← fresh_count]; omega
+
+theorem exactlyOnce_useWait (s : S) (l amt : Nat) (h : ExactlyOnce s) : ExactlyOnce (doUseWait s l amt) := by
+  intro id
+  have hid := h id
+  unfold ids at hid ⊢
+  simp only [List.count_append] at hid
+  show _ = if id < s.nextReq + 1 then 1 else 0
+  simp only [doUseWait, List.count_append, List.map_append, List.map_cons, List.map_nil, List.count_cons,
+    List.count_nil]
+  rw [← fresh_count]; omega
+
 theorem exactlyOnce_step (s s' : S) (h : ExactlyOnce s) (st : Step s s') : ExactlyOnce s' := by
   cases st with
   | useNeg => exact exactlyOnce_answer s _ h
-  | useZero l hl h0 h1 =>
-    intro id
-    have hid := h id
-    unfold ids at hid ⊢
-    simp only [List.count_append] at hid
-    show _ = if id < s.nextReq + 1 then 1 else 0
-    simp only [doUseZero, List.count_append, List.map_cons, List.count_cons]
-    rw [← fresh_count]; omega
+  | useZero l hl h0 h1 => exact exactlyOnce_useZero s l h
   | useClosed => exact exactlyOnce_answer s _ h
   | useTooBig => exact exactlyOnce_answer s _ h
-  | useGrant l amt hl ha h0 h1 h2 h3 =>
-    intro id
-    have hid := h id
-    unfold ids at hid ⊢
-    simp only [List.count_append] at hid
-    show _ = if id < s.nextReq + 1 then 1 else 0
-    simp only [doUseGrant, List.count_append, List.map_cons, List.count_cons]
-    rw [← fresh_count]; omega
-  | useWait l amt hl ha h0 h1 h2 h3 =>
-    intro id
-    have hid := h id
-    unfold ids at hid ⊢
-    simp only [List.count_append] at hid
-    show _ = if id < s.nextReq + 1 then 1 else 0
-    simp only [doUseWait, List.count_append, List.map_append, List.map_cons, List.map_nil, List.count_cons,
-      List.count_nil]
-    rw [← fresh_count]; omega
-  | newChild => exact h
-  | closeChild => exact h
-  | closeRoot => exact h
-  | tickFires => exact h
+  | useGrant l amt hl ha h0 h1 h2 h3 => exact exactlyOnce_useGrant s l amt h
+  | useWait l amt hl ha h0 h1 h2 h3 => exact exactlyOnce_useWait s l amt h
   | tickRuns h1 h0 =>
     intro id
     have hid := h id
@@ -170,8 +214,6 @@ theorem exactlyOnce_step (s s' : S) (h : ExactlyOnce s) (st : Step s s') : Exact
     show _ = if id < s.nextReq then 1 else 0
     simp only [doTickRuns, List.count_append, List.map_append]
     omega
-  | doneReceived => exact h
-  | setCap => exact h
   | drain h1 h0 =>
     intro id
     have hid := h id
@@ -181,6 +223,7 @@ theorem exactlyOnce_step (s s' : S) (h : ExactlyOnce s) (st : Step s s') : Exact
     simp only [doDrain, List.count_append, List.map_append, List.map_map, List.map_nil, List.count_nil]
     have : (s.waiting.map ((fun x => x.1) ∘ fun r => (r.id, Ans.errClosed))) = s.waiting.map (·.id) := rfl
     rw [this]; omega
+  | _ => exact h
 
 theorem exactlyOnce {c : Nat} {s : S} (h : Reachable c s) : ExactlyOnce s := by
   induction h with
@@ -189,11 +232,14 @@ theorem exactlyOnce {c : Nat} {s : S} (h : Reachable c s) : ExactlyOnce s := by
 
 /-! ### after root `Close` has marked the tree everything stays closed, and the queue ends empty -/
 
-def AllClosed (s : S) : Prop := (s.cpc ≠ .idle ∨ s.tpc = .dlock ∨ s.tpc = .tend) → ∀ x, s.closed x = true
+/-- the ticker goroutine has received `done` -/
+def TDone (s : S) : Prop := s.tpc = .dlock ∨ s.tpc = .dcrit ∨ s.tpc = .dunl ∨ s.tpc = .tend
+
+def AllClosed (s : S) : Prop := (s.cpc = .marked ∨ s.cpc = .send ∨ TDone s) → ∀ x, s.closed x = true
 
 theorem allClosed {c : Nat} {s : S} (h : Reachable c s) : AllClosed s := by
   induction h with
-  | init => intro h; simp [init] at h
+  | init => intro h; simp [init, TDone] at h
   | step s s' _ st ih =>
     cases st with
     | newChild p cp hp h0 h1 =>
@@ -204,43 +250,94 @@ theorem allClosed {c : Nat} {s : S} (h : Reachable c s) : AllClosed s := by
       intro h x
       show (s.closed x || decide (l ∈ s.chain x)) = true
       rw [ih h x]; rfl
+    | closeLock h0 h2 =>
+      intro h; apply ih
+      rcases h with h | h | h
+      · cases h
+      · cases h
+      · exact Or.inr (Or.inr h)
     | closeRoot h0 h1 h2 => intro _ x; rfl
-    | tickFires h1 => intro h; exact ih (by simpa [doTickFires, h1] using h)
-    | tickRuns h1 h0 => intro h; exact ih (by simpa [doTickRuns, h1] using h)
-    | doneReceived h1 h2 => intro _; exact ih (Or.inl (by simp [h2]))
-    | drain h1 h0 => intro _; exact ih (Or.inr (Or.inl h1))
+    | closeSkip h1 h2 =>
+      intro h; apply ih
+      rcases h with h | h | h
+      · cases h
+      · cases h
+      · exact Or.inr (Or.inr h)
+    | closeUnlock h2 => intro _; exact ih (Or.inl h2)
+    | tickFires h1 =>
+      intro h; apply ih
+      rcases h with h | h | h
+      · exact Or.inl h
+      · exact Or.inr (Or.inl h)
+      · simp [TDone, doTickFires] at h
+    | tickLock h1 h0 =>
+      intro h; apply ih
+      rcases h with h | h | h
+      · exact Or.inl h
+      · exact Or.inr (Or.inl h)
+      · simp [TDone, doTickLock] at h
+    | tickRuns h1 h0 =>
+      intro h; apply ih
+      rcases h with h | h | h
+      · exact Or.inl h
+      · exact Or.inr (Or.inl h)
+      · simp [TDone, doTickRuns] at h
+    | tickUnlock h1 =>
+      intro h; apply ih
+      rcases h with h | h | h
+      · exact Or.inl h
+      · exact Or.inr (Or.inl h)
+      · simp [TDone, doTickUnlock] at h
+    | doneReceived h1 h2 => intro _; exact ih (Or.inr (Or.inl h2))
+    | drainLock h1 h0 => intro _; exact ih (Or.inr (Or.inr (Or.inl h1)))
+    | drain h1 h0 => intro _; exact ih (Or.inr (Or.inr (Or.inr (Or.inl h1))))
+    | drainUnlock h1 => intro _; exact ih (Or.inr (Or.inr (Or.inr (Or.inr (Or.inl h1)))))
     | _ => exact ih
 
 /-- the goroutine has received `done` only if the closer has returned -/
-theorem closer_returned {c : Nat} {s : S} (h : Reachable c s) : s.tpc = .tend ∨ s.tpc = .dlock → s.cpc = .ret := by
+theorem closer_returned {c : Nat} {s : S} (h : Reachable c s) : TDone s → s.cpc = .ret := by
   induction h with
-  | init => intro h; simp [init] at h
+  | init => intro h; simp [init, TDone] at h
   | step s s' _ st ih =>
     cases st with
-    | closeRoot h0 h1 h2 =>
-      intro h
-      have := ih h
-      rw [h2] at this; cases this
-    | tickFires h1 => intro h; simp [doTickFires] at h
-    | tickRuns h1 h0 => intro h; simp [doTickRuns] at h
+    | closeLock h0 h2 => intro h; have := ih h; rw [h2] at this; cases this
+    | closeRoot h0 h1 h2 => intro h; have := ih h; rw [h2] at this; cases this
+    | closeSkip h1 h2 => intro _; rfl
+    | closeUnlock h2 => intro h; have := ih h; rw [h2] at this; cases this
+    | tickFires h1 => intro h; simp [TDone, doTickFires] at h
+    | tickLock h1 h0 => intro h; simp [TDone, doTickLock] at h
+    | tickRuns h1 h0 => intro h; simp [TDone, doTickRuns] at h
+    | tickUnlock h1 => intro h; simp [TDone, doTickUnlock] at h
     | doneReceived h1 h2 => intro _; rfl
-    | drain h1 h0 => intro _; exact ih (Or.inr h1)
+    | drainLock h1 h0 => intro _; exact ih (Or.inl h1)
+    | drain h1 h0 => intro _; exact ih (Or.inr (Or.inl h1))
+    | drainUnlock h1 => intro _; exact ih (Or.inr (Or.inr (Or.inl h1)))
     | _ => exact ih
 
-theorem waiting_empty_at_end {c : Nat} {s : S} (h : Reachable c s) (he : s.tpc = .tend) : s.waiting = [] := by
+/-- after the drain the queue is empty and stays empty -/
+theorem waiting_empty_after_drain {c : Nat} {s : S} (h : Reachable c s) (he : s.tpc = .dunl ∨ s.tpc = .tend) :
+    s.waiting = [] := by
   induction h with
   | init => simp [init] at he
   | step s s' hr st ih =>
     have hc := allClosed hr
     cases st with
     | useWait l amt hl ha h0 h1 h2 h3 =>
-      have := hc (Or.inr (Or.inr he)) l
+      have hd : TDone s := by rcases he with he | he; exact Or.inr (Or.inr (Or.inl he)); exact Or.inr (Or.inr (Or.inr he))
+      have := hc (Or.inr (Or.inr hd)) l
       rw [h1] at this; cases this
     | tickFires h1 => simp [doTickFires] at he
+    | tickLock h1 h0 => simp [doTickLock] at he
     | tickRuns h1 h0 => simp [doTickRuns] at he
+    | tickUnlock h1 => simp [doTickUnlock] at he
     | doneReceived h1 h2 => simp [doDoneReceived] at he
+    | drainLock h1 h0 => simp [doDrainLock] at he
     | drain h1 h0 => rfl
+    | drainUnlock h1 => exact ih (Or.inl h1)
     | _ => exact ih he
+
+theorem waiting_empty_at_end {c : Nat} {s : S} (h : Reachable c s) (he : s.tpc = .tend) : s.waiting = [] :=
+  waiting_empty_after_drain h (Or.inr he)
 
 /-! ### shape of the tree; `closed` is inherited downwards -/
 
@@ -354,8 +451,12 @@ theorem tree {c : Nat} {s : S} (h : Reachable c s) : Tree s := by
   | init => exact tree_init c
   | step s s' _ st ih =>
     cases st with
-    | newChild p cp hp h0 h1 => exact tree_newChild s p cp hp h1 ih
-    | closeChild l hl hr h0 h1 => exact tree_closeChild s l hl ih
+    | newChild p cp hp h0 h1 =>
+      have t := tree_newChild s p cp hp h1 ih
+      exact ⟨t.lt, t.self, t.root, t.trans, t.unl, t.down⟩
+    | closeChild l hl hr h0 h1 =>
+      have t := tree_closeChild s l hl ih
+      exact ⟨t.lt, t.self, t.root, t.trans, t.unl, t.down⟩
     | closeRoot h0 h1 h2 => exact ⟨ih.lt, ih.self, ih.root, ih.trans, fun _ _ => rfl, fun _ _ _ _ => rfl⟩
     | _ => exact ⟨ih.lt, ih.self, ih.root, ih.trans, ih.unl, ih.down⟩
 
@@ -376,7 +477,7 @@ theorem closed_mono {s s' : S} (st : Step s s') (x : Nat) (hx : x < s.n) (h : s.
   cases st with
   | newChild p c hp h0 h1 =>
     have : x ≠ s.n := by omega
-    simpa [doNewChild, upd, this] using h
+    simpa [doNewChild, unlock, upd, this] using h
   | closeChild l hl hr h0 h1 => show (s.closed x || decide (l ∈ s.chain x)) = true; simp [h]
   | closeRoot => rfl
   | _ => exact h
